@@ -33,7 +33,7 @@ func init() {
 		},
 		Run:          runC08,
 		BeatTimeoutS: 90,
-		Required:     []string{"handler_calls_checked", "pongs_checked", "close_echoes_checked", "control_between_fragments", "concurrent_pong_runs", "connections_built_by_dial_with_frames_behind_the_reply", "streams_read_under_an_exactly_sufficient_read_limit"},
+		Required:     []string{"handler_calls_checked", "pongs_checked", "close_echoes_checked", "control_between_fragments", "concurrent_pong_runs", "connections_built_by_dial_with_frames_behind_the_reply", "streams_read_under_an_exactly_sufficient_read_limit", "streams_read_through_joinmessages"},
 		Assumptions: []string{
 			"pong and close echoes of the default handlers are demanded because nothing else holds the write lock in these single-goroutine executions",
 			"byte-level ordering of handler calls relative to delivered data is judged for uncompressed messages; for compressed messages at message granularity",
@@ -133,6 +133,8 @@ func runC08(ctx *core.Ctx, out *core.Out) {
 
 var errHandler = errors.New("verif: handler says no")
 
+var errHandlerTimeout error = &xport.TimeoutErr{S: "verif: handler says its own write timed out"}
+
 func c08Exec(ctx *core.Ctx, out *core.Out, st *Stream, ex rdExec, failAt int) bool {
 	return c08ExecH(ctx, out, st, ex, failAt, 0)
 }
@@ -141,6 +143,12 @@ func c08Exec(ctx *core.Ctx, out *core.Out, st *Stream, ex rdExec, failAt int) bo
 // close frame and keeps reading, 2 = every transport write fails.
 func c08ExecH(ctx *core.Ctx, out *core.Out, st *Stream, ex rdExec, failAt int, hist int) bool {
 	r := ctx.R
+	// what a failing handler returns: a plain error, or (one case in four) an error that looks like
+	// a timeout (an application handler may pass on the result of its own timed-out write)
+	var errHandler error = errHandler
+	if ctx.Idx%4 == 3 {
+		errHandler = errHandlerTimeout
+	}
 	fail := func(sig, what string, log []c08Ev) bool {
 		d := map[string]interface{}{"exec": ex, "stream": st.Summary(), "bytes": core.Trunc(st.Bytes, 500), "handler_fails_at_control": failAt, "history": []string{"fresh", "application sent its close first", "every transport write fails", "stale expired write deadline"}[hist]}
 		if log != nil {
